@@ -115,6 +115,12 @@ func LoadIndex(idx index.Index, r io.Reader, opts ...Option) error {
 
 	records := make([]index.Record, 0)
 	for {
+		// A CARv2 payload that holds no section at all ends right after its header: do not read
+		// whatever follows it (padding, index) as a section.
+		if dataSize != 0 && sectionOffset >= dataSize {
+			break
+		}
+
 		// Read the section's length.
 		sectionLen, err := varint.ReadUvarint(reader)
 		if err != nil {
